@@ -1,5 +1,10 @@
 #!/usr/bin/env python3
-"""MANIFEST.setup_cmd: build the Lean project and warm the library cache, offline, from files on disk only."""
+"""MANIFEST.setup_cmd: build the Lean project and warm the library cache, offline, from files on disk only.
+
+The tables under lean/Generated are REWRITTEN BY EVERY CHECK from /repo's current tree before its theorems are re-checked, so the copies
+in the repository only serve to warm the build cache here.  If a committed copy is stale with respect to the property files (the theorems
+that range over it do not check), that is reported but is not a setup failure: the check of that property regenerates the table and
+rebuilds.  Setup fails only if a model, a proof library or a model driver does not build."""
 import os, sys
 sys.path.insert(0, os.path.dirname(os.path.abspath(__file__)))
 from concurrent.futures import ThreadPoolExecutor
@@ -7,10 +12,23 @@ from vlib import common as C
 
 claimed = open(os.path.join(C.VERIF, 'vlib', 'claimed.txt')).read().split()
 targets = [t for pid in claimed for t in C.property_targets(pid)]
-ok, out = C.lean_build(targets)
-if not ok:
-    print(out[-5000:])
-    sys.exit(1)
 with ThreadPoolExecutor(3) as ex:
-    list(ex.map(C.build_lib, ['plain', 'asan', 'tsan']))
+    libs = ex.map(C.build_lib, ['plain', 'asan', 'tsan'])
+    ok, out = C.lean_build(targets)
+    list(libs)
+if not ok:
+    # build what can be built, one target at a time; only targets that do not range over a regenerated table are fatal
+    fatal = []
+    for t in targets:
+        ok1, out1 = C.lean_build([t])
+        if ok1:
+            continue
+        stale = t.startswith('IprProps.') and any(os.sep + 'Generated' + os.sep in f for f in C.lean_sources(roots=[t]))
+        print('[setup] %s does not build%s' % (t, ' (it ranges over a regenerated table whose committed copy is stale; the check regenerates it)' if stale else ''))
+        if not stale:
+            fatal.append((t, out1))
+    if fatal:
+        for t, o in fatal:
+            print('== ' + t + '\n' + o[-3000:])
+        sys.exit(1)
 print('setup ok')
